@@ -516,6 +516,12 @@ func TestVerifC18(t *testing.T) {
 	nrand := verifkit.Pick(10000, 1000000)
 	const smallLimit = 256
 	for it := 0; it < nrand; it++ {
+		if rep.ViolationCount() > 300 {
+			// several hundred witnesses are on record; a reader that allocates gigabytes per hostile length
+			// would otherwise spend the whole time budget adding more of the same
+			rep.Note("random-bytes stage cut short after %d iterations: more than 300 violations recorded", it)
+			break
+		}
 		k := kinds[rng.Intn(len(kinds))]
 		in := make([]byte, rng.Intn(40))
 		rng.Read(in)
